@@ -43,6 +43,18 @@ check("C17",
  "deterministic simulation: seeded operation/fault histories vs executable reference model (refinement), minimised replay files",
  "DESIGN.md 4.5")
 
+check("C18",
+ "Seeded search over histories: a living d1 (plain or Mapfile dict) receives successive type-compatible patches through mappyfile.update and its object lists are queried with find/findall/findunique/findkey; every step is compared with a reference implementation written from the statement (result, d1 state, identity of untouched values, purity of the patch - including every earlier patch of the history - and of the searched items). Sampling evidence over histories; no schedule, clock or I/O exists for this property.",
+ "Trusts the ~60-line reference implementation and the generator's notion of 'type-compatible patch' (the statement is silent on dict-over-scalar conflicts, empty lists in a patch and deleting absent keys: not generated, and skipped by a precondition during shrinking).",
+ "deterministic simulation: seeded operation histories vs executable reference implementation (refinement), minimised replay files",
+ "DESIGN.md 4.6")
+
+check("C12",
+ "Seeded search over (a) histories on reused Parser/MapfileToDict/PrettyPrinter/Validator objects, each operation compared with brand-new objects in a pristine forked process, with and without I/O faults injected at the k-th schema/grammar/mapfile open or read and bounded recovery asserted one step after the last fault; (b) real threads on the module-level API under a deterministic scheduler that pre-empts at source-line granularity (random walk / PCT / starvation), each call compared with the same call run alone in a pristine process; (c) argument purity around every call. A few hundred runs per quick invocation, ~10^5 in thorough; sampling evidence over histories x schedules x fault placements.",
+ "Trusts sys.monitoring LINE events as the complete set of pre-emption points that matter under the GIL, the in-memory file system's fidelity to the real one for open/read/write/close of regular files, and freeze() as the notion of 'same result'. Thread safety of one worker object shared between threads is not promised and not exercised.",
+ "deterministic simulation: seeded thread schedules (baton-passing real threads, sys.monitoring pre-emption), crash-point I/O fault injection, reused-vs-pristine relational oracle, minimised schedule+fault replay files",
+ "DESIGN.md 4.1")
+
 def main():
     order = ["C03", "C09", "C12", "C15", "C17", "C18", "C20"]
     claimed = [CHECKS[p] for p in order if p in CHECKS]
